@@ -464,11 +464,13 @@ def fork_trial(rng, nterm=8):
     t0 = time.time()
     # the frames of the two masters travel at the same time: a frame of
     # each is taken off the sockets before either is processed (a worker
-    # that has nothing to send within 0.3 s is not waited for)
-    while live and time.time() - t0 < 40:
+    # that has nothing to send within 3 s is not waited for: every frame is
+    # answered, so a live worker sends its next one as soon as it is given
+    # the CPU - on a loaded machine that can take a while)
+    while live and time.time() - t0 < 120:
         pending = {}
         t1 = time.time()
-        while live - set(pending) and time.time() - t1 < 0.3:
+        while live - set(pending) and time.time() - t1 < 3:
             for key, _ in sel.select(0.05):
                 s_ = key.fileobj
                 if s_ in pending:
